@@ -16,7 +16,10 @@ RULE = ("direction grids: every algorithm (ico, cube3D, randomS) x N (quick: 4..
         "or shuffled), 'linspace(a,b,n)' and 'range(a,b,step)' (ascending and descending); getters called in a random order, one "
         "of them twice; plus radial grids outside the quantifier for the correspondence only: rejected ones (duplicate, negative, "
         "empty) and accepted ones with a zero first radius (zero-valued entries are not stored); and direct "
-        "scipy.sparse.diags cases (cut / broadcast / too short / out of bounds).  Every entry of volumes, adjacency, borders, "
+        "scipy.sparse.diags cases (cut / broadcast / too short / out of bounds); every argument handed to the package in a "
+        "seed-chosen representation (str / built str / np.str_ / str subclass; bool / np.bool_ / 0; int / np.int64 / np.int32 / "
+        "np.uint16 / 0-d array; float / int / np.float64 / np.float32 / 0-d array; array / list / tuple / int dtype / strided / "
+        "read-only; PositionGrid directly or through FullGrid), plus an exhaustive one-at-a-time sweep over two fixed cases.  Every entry of volumes, adjacency, borders, "
         "distances is compared.  A grid case is non-trivial when T>=2 and not all increments are equal; distinct by "
         "(direction grid, radial text).")
 CHUNK = 40
@@ -116,9 +119,121 @@ def _order(rng):
     return o
 
 
+# ----------------------------------------------------------------------------------------------------------------
+# argument representations: the same value handed to the package in another representation must give the same result
+# ----------------------------------------------------------------------------------------------------------------
+REP_FAMILIES = {
+    "str": ("plain", "built", "npstr", "sub"),            # literal-like str / built at run time / np.str_ / str subclass
+    "flag": ("bool", "npbool", "int"),                     # False / np.False_ / 0
+    "int": ("int", "int64", "int32", "uint16", "arr0"),    # Python int / numpy scalars / 0-d integer array
+    "real": ("float", "int", "float64", "float32", "arr0"),  # int only if integer-valued, float32 only if exactly representable
+    "arr": ("f64", "list", "tuple", "intdtype", "noncontig", "readonly"),
+    "via": ("PositionGrid", "FullGrid"),                   # constructed directly / reached through FullGrid's forwarding
+}
+# argument -> family.  o, t, flag: PositionGrid(o_grid_name, t_grid_name, position_grid_cartesian); b, factor: the two other
+# FullGrid arguments; arr, incl0: get_between_radii(my_array, include_zero); gflag: only_upper / include_opposing_neighbours of
+# the unit-sphere getters; pname, role: GridNameParser(name, role); alg, N: SphereGrid3DFactory.create(alg_name, N)
+REP_ARGS = {"o": "str", "t": "str", "flag": "flag", "via": "via", "b": "str", "factor": "real", "arr": "arr", "incl0": "flag",
+            "gflag": "flag", "pname": "str", "role": "str", "alg": "str", "N": "int"}
+REP_PLAIN = {"str": "plain", "flag": "bool", "int": "int", "real": "float", "arr": "f64", "via": "PositionGrid"}
+
+
+class _StrSub(str):
+    """a str subclass instance (like a str-mixin Enum member)"""
+
+
+def _mk_str(s, fam):
+    if fam == "built":
+        return "".join([c for c in s])
+    if fam == "npstr":
+        return np.str_(s)
+    if fam == "sub":
+        return _StrSub(s)
+    return s
+
+
+def _mk_flag(b, fam):
+    return np.bool_(b) if fam == "npbool" else int(b) if fam == "int" else bool(b)
+
+
+def _mk_int(n, fam):
+    return {"int64": np.int64, "int32": np.int32, "uint16": np.uint16, "arr0": np.array}.get(fam, int)(n)
+
+
+def _mk_real(x, fam, fallbacks):
+    x = float(x)
+    if fam == "int":
+        if x == int(x):
+            return int(x)
+        fallbacks.append("real/int:not integer-valued")
+        return x
+    if fam == "float32":
+        if float(np.float32(x)) == x:
+            return np.float32(x)
+        fallbacks.append("real/float32:not exactly representable")
+        return np.float64(x)
+    if fam == "float64":
+        return np.float64(x)
+    if fam == "arr0":
+        return np.array(x)
+    return x
+
+
+def _mk_arr(a, fam, fallbacks):
+    a = np.array(a, dtype=float)
+    if fam == "list":
+        return [float(x) for x in a]
+    if fam == "tuple":
+        return tuple(float(x) for x in a)
+    if fam == "intdtype":
+        if np.all(a == np.round(a)) and np.all(np.abs(a) < 2 ** 31):
+            return a.astype(np.int32 if len(a) % 2 else np.int64)
+        fallbacks.append("arr/intdtype:not integer-valued")
+        return a
+    if fam == "noncontig":
+        big = np.zeros(2 * len(a))
+        big[::2] = a
+        return big[::2]
+    if fam == "readonly":
+        a.setflags(write=False)
+        return a
+    return a
+
+
+def draw_reps(rng):
+    reps = {arg: rng.choice(REP_FAMILIES[fam]) for arg, fam in REP_ARGS.items()}
+    reps["via"] = "FullGrid" if rng.random() < 0.3 else "PositionGrid"
+    return reps
+
+
+def with_reps(rng, case):
+    case["reps"] = draw_reps(rng)
+    case["factor"] = rng.choice([2, 2, 1.5, 3, 0.5])
+    return case
+
+
+def representation_sweep():
+    """quick tier: every family of every argument, one at a time (all others plain), over two small fixed cases"""
+    fixed = [{"kind": "grid", "o": "ico_7", "t": "[0.1, 0.25, 0.3]", "radii_nm": ["1/10", "1/4", "3/10"], "factor": 1.5},
+             # radii 1, 4, 9 angstrom: integer-valued with odd increments (half-integer boundaries), so integer dtypes are exercised
+             {"kind": "grid", "o": "cube3D_8", "t": "[0.4, 0.1, 0.9]", "radii_nm": ["2/5", "1/10", "9/10"], "factor": 3}]
+    for base in fixed:
+        plain = {arg: REP_PLAIN[fam] for arg, fam in REP_ARGS.items()}
+        yield dict(base, form="rep_sweep", order=list(GETTERS) + ["borders"], reps=dict(plain))
+        for arg, fam in REP_ARGS.items():
+            for f in REP_FAMILIES[fam]:
+                if f == REP_PLAIN[fam]:
+                    continue
+                reps = dict(plain, **{arg: f})
+                if arg in ("b", "factor"):
+                    reps["via"] = "FullGrid"
+                yield dict(base, form="rep_sweep", order=list(GETTERS) + ["borders"], reps=reps)
+
+
 def grid_case(rng, alg, N, T):
     text, vals, form = radial_text(rng, T)
-    return {"kind": "grid", "o": f"{alg}_{N}", "t": text, "radii_nm": [_frs(v) for v in vals], "form": form, "order": _order(rng)}
+    return with_reps(rng, {"kind": "grid", "o": f"{alg}_{N}", "t": text, "radii_nm": [_frs(v) for v in vals], "form": form,
+                           "order": _order(rng)})
 
 
 def cases(ctx):
@@ -135,6 +250,13 @@ def cases(ctx):
         L = rng.choice([0, 1, 1, max(0, n - off), max(0, n - off), rng.randint(0, 12)])
         vals = [rng.choice([0, 1, 2, 3, -1]) for _ in range(L)]
         yield {"kind": "diags", "vals": [f"{v}/1" for v in vals], "off": off, "lower": rng.random() < 0.5, "n": n}
+    # --- argument representations, exhaustively one at a time over two fixed cases ------------------------------------
+    nsweep = 0
+    for c in representation_sweep():
+        nsweep += 1
+        yield c
+    ctx.extra_cov["representation_sweep"] = (f"{nsweep} cases: every family of every argument ({', '.join(f'{a}:{f}' for a, f in REP_ARGS.items())}) "
+                                             "one at a time over ico_7 '[0.1, 0.25, 0.3]' and cube3D_8 '[0.4, 0.1, 0.9]'")
     # --- fixed small set: every algorithm, small N, hand-written radial texts (run for every seed) --------------
     hand = ["[0.1, 0.25, 0.3]", "linspace(0.1,0.5,4)", "[0.3, 0.1, 0.25, 0.7]", "range(0.2, 0.75, 0.1)", "[1, 2]", "[0.5, 0.6]"]
     hand_vals = [[Fraction(1, 10), Fraction(1, 4), Fraction(3, 10)],
@@ -145,20 +267,20 @@ def cases(ctx):
     for alg in algs:
         for N in (4, 7, 12):
             for t, v in zip(hand, hand_vals):
-                yield {"kind": "grid", "o": f"{alg}_{N}", "t": t, "radii_nm": [_frs(x) for x in v], "form": "hand",
-                       "order": list(GETTERS) + ["distances"]}
+                yield with_reps(rng, {"kind": "grid", "o": f"{alg}_{N}", "t": t, "radii_nm": [_frs(x) for x in v], "form": "hand",
+                                      "order": list(GETTERS) + ["distances"]})
     # --- radial grids outside the property's quantifier: correspondence only --------------------------------------
     # rejected by the code (duplicate, negative, empty) ...
     for t, v in [("[0.1, 0.1, 0.3]", [Fraction(1, 10)] * 2 + [Fraction(3, 10)]), ("[-0.1, 0.2]", [Fraction(-1, 10), Fraction(2, 10)]),
                  ("[0, 0, 0.2]", [0, 0, Fraction(2, 10)]), ("[]", [])]:
-        yield {"kind": "grid", "o": "ico_6", "t": t, "radii_nm": [_frs(Fraction(x)) for x in v], "form": "invalid",
-               "order": list(GETTERS)}
+        yield with_reps(rng, {"kind": "grid", "o": "ico_6", "t": t, "radii_nm": [_frs(Fraction(x)) for x in v], "form": "invalid",
+                              "order": list(GETTERS)})
     # ... and accepted although not positive: a zero first radius (fix cae935f); zero-valued entries are not stored
     for o in ("ico_6", "cube3D_9", "randomS_5"):
         for t, v in [("[0, 0.1, 0.3]", [0, Fraction(1, 10), Fraction(3, 10)]), ("[0]", [0]), ("range(3)", [0, 1, 2]),
                      ("[0.25, 0]", [Fraction(1, 4), 0]), ("linspace(0, 0.5, 4)", [Fraction(i, 6) for i in range(4)])]:
-            yield {"kind": "grid", "o": o, "t": t, "radii_nm": [_frs(Fraction(x)) for x in v], "form": "zero_first",
-                   "order": list(GETTERS) + ["borders"]}
+            yield with_reps(rng, {"kind": "grid", "o": o, "t": t, "radii_nm": [_frs(Fraction(x)) for x in v],
+                                  "form": "zero_first", "order": list(GETTERS) + ["borders"]})
     # --- generated ---------------------------------------------------------------------------------------------
     if ctx.quick:
         Ns = list(range(4, 21)) + [25, 42, 43]
@@ -212,7 +334,7 @@ _FIRST_OF_SHAPE = {}                      # (direction grid size, number of radi
 
 
 def _bare(case):
-    return {k: case[k] for k in ("kind", "o", "t", "radii_nm", "order") if k in case}
+    return {k: case[k] for k in ("kind", "o", "t", "radii_nm", "order", "reps", "factor") if k in case}
 
 
 def impl(case):
@@ -241,27 +363,70 @@ def _impl(case):
             return {"m": sorted([int(i), int(j), float(v)] for i, j, v in zip(m.row, m.col, m.data) if v != 0)}
         except Exception as e:
             return {"err": core.errname(e)}
-    from molgri.space.fullgrid import PositionGrid
+    from molgri.space.fullgrid import PositionGrid, FullGrid
     from molgri.space import translations
     out = {}
+    reps = case.get("reps")
+    fb = []
     try:
         with core.quiet():
-            pg = PositionGrid(case["o"], case["t"])
+            if reps is None:        # stored corpus / replays of older inputs: the plain call
+                pg = PositionGrid(case["o"], case["t"])
+            else:
+                o_arg, t_arg = _mk_str(case["o"], reps["o"]), _mk_str(case["t"], reps["t"])
+                flag = _mk_flag(False, reps["flag"])
+                if reps["via"] == "FullGrid":
+                    # the position grid reached through FullGrid (getters are forwarded by FullGrid.__getattr__)
+                    pg = FullGrid(_mk_str("zero", reps["b"]), o_arg, t_arg, factor=_mk_real(case.get("factor", 2), reps["factor"], fb),
+                                  position_grid_cartesian=flag)
+                else:
+                    pg = PositionGrid(o_arg, t_arg, position_grid_cartesian=flag)
     except Exception as e:
         return {"err": core.errname(e)}
+    reps = reps or {arg: REP_PLAIN[fam] for arg, fam in REP_ARGS.items()}
+    gflag = _mk_flag(False, reps["gflag"])
     with core.quiet():
         og = pg.get_o_grid()
         out["n_o"] = int(og.get_N())
         out["radii"] = [float(x) for x in pg.get_radii()]
-        out["points"] = np.array(og.get_grid_as_array(only_upper=False), dtype=float).tolist()
+        out["points"] = np.array(og.get_grid_as_array(only_upper=gflag), dtype=float).tolist()
         out["area"] = [float(x) for x in og.get_spherical_voronoi().get_voronoi_volumes()]
-        out["adj"] = _dense_triples(og.get_voronoi_adjacency(only_upper=False, include_opposing_neighbours=False).toarray())
+        out["adj"] = _dense_triples(og.get_voronoi_adjacency(only_upper=gflag, include_opposing_neighbours=gflag).toarray())
         out["arc"] = _dense_triples(og.get_cell_borders().toarray())
-        out["ang"] = _dense_triples(og.get_center_distances(only_upper=False, include_opposing_neighbours=False).toarray())
+        out["ang"] = _dense_triples(og.get_center_distances(only_upper=gflag, include_opposing_neighbours=gflag).toarray())
         try:
-            out["between_fn"] = [float(x) for x in translations.get_between_radii(pg.get_radii())]
+            out["between_fn"] = [float(x) for x in translations.get_between_radii(_mk_arr(pg.get_radii(), reps["arr"], fb),
+                                                                                    include_zero=_mk_flag(False, reps["incl0"]))]
         except Exception as e:
             out["between_fn"] = {"err": core.errname(e)}
+        # the same direction grid named / requested in other representations: name parser with a role, factory with alg and N
+        alg, _, nn = case["o"].rpartition("_")
+        if "reps" in case and nn.isdigit():
+            from molgri.naming import GridNameParser
+            from molgri.space.rotobj import SphereGrid3DFactory
+            try:
+                gp = GridNameParser(_mk_str(case["o"], reps["pname"]), _mk_str("o", reps["role"]))
+                out["parsed"] = [str(gp.get_alg()), int(gp.get_N())]
+            except Exception as e:
+                out["parsed"] = {"err": core.errname(e)}
+            try:
+                g2 = SphereGrid3DFactory.create(alg_name=_mk_str(alg, reps["alg"]), N=_mk_int(int(nn), reps["N"]))
+                diff = []
+                if np.array(g2.get_grid_as_array(only_upper=False), dtype=float).tolist() != out["points"]:
+                    diff.append("points")
+                if type(g2.get_spherical_voronoi()).__name__ != type(og.get_spherical_voronoi()).__name__:
+                    diff.append(f"tessellation object {type(g2.get_spherical_voronoi()).__name__} instead of "
+                                f"{type(og.get_spherical_voronoi()).__name__}")
+                if [float(x) for x in g2.get_spherical_voronoi().get_voronoi_volumes()] != out["area"]:
+                    diff.append("cell areas")
+                if _dense_triples(g2.get_voronoi_adjacency(only_upper=False, include_opposing_neighbours=False).toarray()) != out["adj"]:
+                    diff.append("adjacency")
+                if _dense_triples(g2.get_cell_borders().toarray()) != out["arc"]:
+                    diff.append("border arcs")
+                out["g2"] = diff
+            except Exception as e:
+                out["g2"] = {"err": core.errname(e)}
+    out["rep_fallbacks"] = fb
     fn = {"volumes": pg.get_all_position_volumes, "adjacency": pg.get_adjacency_of_position_grid,
           "borders": pg.get_borders_of_position_grid, "distances": pg.get_distances_of_position_grid}
     out["repeat_differs"] = None
@@ -457,16 +622,34 @@ def _first_bad(got, want):
 def oracle(ctx, case, out):
     if case["kind"] != "grid":
         return
+    ci = {k: case[k] for k in ("kind", "o", "t", "radii_nm", "order", "reps", "factor") if k in case}
+    ci["history"] = out.get("history", [])   # what ran before in this process; re-run first by --replay
+    # --- the direction grid must not depend on how its name / role / algorithm / N are represented -------------------------
+    if "reps" in case:
+        rp = case["reps"]
+        for arg, fam in rp.items():
+            ctx.branch(f"rep:{arg}={fam}")
+        for f in out.get("rep_fallbacks", []):
+            ctx.branch("rep_fallback:" + f)
+        alg, _, nn = case["o"].rpartition("_")
+        if "parsed" in out and out["parsed"] != [alg, int(nn)]:
+            ctx.fail("C05:name_role_representation", f"GridNameParser({case['o']!r} as {rp['pname']}, role 'o' as {rp['role']}) gives "
+                     f"{out['parsed']} instead of {[alg, int(nn)]}", ci, [alg, int(nn)], out["parsed"])
+            return
+        if out.get("g2"):
+            ctx.fail("C05:direction_grid_representation", f"SphereGrid3DFactory.create(alg_name={alg!r} as {rp['alg']}, N={nn} as "
+                     f"{rp['N']}) is not the direction grid of PositionGrid({case['o']!r}, ...): differs in {out['g2']}", ci,
+                     "identical direction grid", out["g2"])
+            return
     r = expected_radii(case)
     valid = len(r) >= 1 and r[0] > 0 and all(a < b for a, b in zip(r, r[1:]))
     if not valid:
         zero_first = len(r) >= 1 and r[0] == 0 and all(a < b for a, b in zip(r, r[1:]))
         ctx.branch("excluded_zero_first_radius_outside_quantifier" if zero_first else "excluded_invalid_radial_grid")
         return
-    ci = {k: case[k] for k in ("kind", "o", "t", "radii_nm", "order")}
-    ci["history"] = out.get("history", [])   # what ran before in this process; re-run first by --replay
     if "err" in out:
-        ctx.fail("C05:exception", f"PositionGrid({case['o']!r}, {case['t']!r}) raised {out['err']}", ci)
+        ctx.fail("C05:exception", f"constructing the position grid ({case['o']!r}, {case['t']!r}, representations "
+                 f"{case.get('reps', 'plain')}) raised {out['err']}", ci)
         return
     for g in GETTERS:
         if isinstance(out[g], dict) and "err" in out[g]:
@@ -690,6 +873,14 @@ def run(ctx):
     ctx.note("'adjacent on the sphere' in the oracle is independent of molgri: length of the common boundary arc of the two nearest-"
              "neighbour regions computed from the direction points (props.c03.true_arcs); pairs whose arc is within 1e-9 of zero "
              "(degenerate corners of polytope grids) are left undecided and counted; unit-sphere arcs are compared with it to 1e-8")
+    ctx.note("argument representations (drawn per case; exhaustive one-at-a-time sweep over two fixed cases): established on the "
+             "unchanged tree that str / run-time-built str / np.str_ / str subclass (names, radial texts, role, algorithm), bool / "
+             "np.bool_ / 0 (flags), int / np.int64 / np.int32 / np.uint16 / 0-d integer array (N), float / int / np.float64 / "
+             "np.float32 / 0-d array (factor), float64 / list / tuple / int32-int64 dtype / non-contiguous / read-only arrays "
+             "(get_between_radii) are all accepted and give results identical to the plain call; the expected values never depend on "
+             "the representation.  Left out: N as Python float / np.float64 (TypeError on the unchanged tree: slice indices / "
+             "'cannot be interpreted as an integer'); integer dtype arrays and int factor only for integer-valued numbers, float32 "
+             "only when exactly representable (otherwise float64 is used and counted as rep_fallback)")
     ctx.note("range(a,b,step) texts are generated with the stop half a step beyond the last element (np.arange length decisions "
              "within one ulp of an integer quotient are C16's model boundary)")
 
